@@ -396,6 +396,13 @@ func (c *Container) HandleWithFilter(pattern string, handler http.Handler) {
 			return
 		}
 
+		if !c.doNotRecover { // catch all for 500 response, as for routed requests
+			defer func() {
+				if r := recover(); r != nil {
+					c.recoverHandleFunc(r, httpResponse)
+				}
+			}()
+		}
 		chain := FilterChain{Filters: c.containerFilters, Target: func(req *Request, resp *Response) {
 			handler.ServeHTTP(resp, req.Request)
 		}}
